@@ -813,12 +813,10 @@ func simC04(c *sim.Ctx) {
 					if !overwritten[o.a].Load() && ow.sig != refsig[o.a] && !(do.Lazy && len(in) == 0) {
 						fail("same-result", "options-change-result", "NewPacket", "input %d (%d bytes) decoded with options %d differs from the default decode:\n got %q\nwant %q", o.a, len(in), o.b, ow.sig, refsig[o.a])
 					}
-					if do.Pool && len(in) > 1500 && ow.pooled {
-						fail("pool", "oversize-pooled", "NewPacket", "a %d-byte packet came back pool-backed", len(in))
-					}
-					if do.Pool && len(in) <= 1500 && !ow.pooled {
-						fail("pool", "not-pooled", "NewPacket", "a %d-byte packet decoded with Pool is not a PooledPacket", len(in))
-					}
+					// (which packets come back pool-backed - how large a block is,
+					// whether oversized ones are wrapped too - is the implementation's
+					// business: whatever says it is a PooledPacket gets disposed once,
+					// and no two undisposed ones may share memory)
 					// no two live pooled packets share backing memory
 					if ow.pooled {
 						for _, q := range own[wi] {
